@@ -1274,8 +1274,10 @@ impl Server {
                     _ => return Ok(RespFrame::error("ERR invalid milliseconds format")),
                 };
                 
-                // Sleep for the specified time to create a deliberately slow command
-                std::thread::sleep(std::time::Duration::from_millis(milliseconds));
+                // Sleep for the specified time to create a deliberately slow command.
+                // This runs on the only command thread: an unbounded value would let any
+                // client stop the whole server, so the pause is capped at one second.
+                std::thread::sleep(std::time::Duration::from_millis(milliseconds.min(1000)));
                 
                 Ok(RespFrame::ok())
             },
